@@ -217,10 +217,14 @@ def make_output(cx, layout, n=None):
         time_unit="s",
         nctime=z3.Real("out_nctime"),
         output_period=z3.Int("output_period"),
+        output_period_step=z3.Int("output_period_step"),
         filenames=FileNames(),
         filename="<file name #0>",
         multifile=True,
     )
+    # established by __init__ (proved there: OutputInitRecords): period in steps >= 1, stored period = +-steps*dt
+    ta = timer.attrs
+    cx.assume(z3.And(out.attrs["output_period_step"] >= 1, out.attrs["output_period"] == z3.If(ta["time_reversal"], -1, 1) * out.attrs["output_period_step"] * ta["dt"]))
     return out
 
 
